@@ -57,7 +57,11 @@ func (p *TriggerPool) Start(ctx context.Context) context.Context {
 	// context.Done() and context.Err() for context that can be cancelled use a Lock.
 	// To avoid frequent locking - use an atomic.Bool for cancellation instead of checking the
 	// context on each iteration
+	// the stop goroutine reports the still pending work as dropped: it is part of the pool's
+	// completion, otherwise totals could be taken while drops are still being recorded
+	p.manager.runningWorkers.Add(1)
 	go func() {
+		defer p.manager.runningWorkers.Done()
 		<-workerCtx.Done()
 		p.stop()
 	}()
